@@ -261,11 +261,12 @@ World *Wp;
 
 void check_nothing_underway(Tree &T, const char *when);
 
-void hook_root(Tree &T, Run &run) {
+void hook_root(Tree &T, Run &run, int my_run) {
   Action *root = T.nodes[0];
-  root->setFinishCallback([&run](bool ok, const Action::Reason &, const Action::Trace &) {
+  root->setFinishCallback([&run, my_run](bool ok, const Action::Reason &, const Action::Trace &) {
     run.ev.push_back(Ev{1, 0, ok ? 1 : 0});
     sim::trace("root finished %d", (int)ok);
+    if (my_run && my_run != W.run_no) sim::violation("C17/stale-notification-after-reset", sim::fmt("the finish notification of run %d was delivered after the tree had been reset and started again", my_run));
     if (&run == W.cur) {
       ++W.root_finishes;
       if (W.stopped) sim::violation("C17/finish-after-stop", "the root's finish callback was delivered after stop() had returned");
@@ -276,8 +277,9 @@ void hook_root(Tree &T, Run &run) {
       lp->runNext([lp, run_no] { lp->runNext([run_no] { if (W.run_no == run_no && W.finished) check_nothing_underway(W.tree, "one loop pass after the root finished"); }, "c17.settle2"); }, "c17.settle1");
     }
   });
-  root->setBlockCallback([&run](const Action::Reason &, const Action::Trace &) {
+  root->setBlockCallback([&run, my_run](const Action::Reason &, const Action::Trace &) {
     run.ev.push_back(Ev{2, 0, 0});
+    if (my_run && my_run != W.run_no) sim::violation("C17/stale-notification-after-reset", sim::fmt("the block notification of run %d was delivered after the tree had been reset and started again", my_run));
     if (&run == W.cur) { ++W.root_blocks; if (W.stopped) sim::violation("C17/block-after-stop", "a block notification was delivered after stop() had returned"); }
   });
   if (auto *as = dynamic_cast<AssembleAction *>(root)) as->setFinalCallback([&run] { run.ev.push_back(Ev{3, 0, 0}); if (&run == W.cur) ++W.finals; });
@@ -321,7 +323,7 @@ void execute(const sim::Plan &plan) {
   Action *root = build(W.tree, 0);
   W.tree.on_forced_stop = [] { W.stopped = true; };
   W.cur = &W.run1;
-  hook_root(W.tree, W.run1);
+  hook_root(W.tree, W.run1, 1);
   if (!root->isReady()) { sim::violation("C17/tree-not-ready", "a well-formed tree reports isReady()==false"); return; }
 
   static drv::Timeline tl;
@@ -341,12 +343,12 @@ void execute(const sim::Plan &plan) {
         if (c == 0) { if (root->isRunning()) { root->pause(); W.paused = true; } }
         else if (c == 1) { if (root->state() == Action::State::kPause) { root->resume(); W.paused = false; } }
         else if (c == 2) { if (root->isUnderway()) { root->stop(); W.stopped = true; check_nothing_underway(W.tree, "right after stop()"); } }
-        else if (!W.second_run && !root->isUnderway() && (W.finished || W.stopped)) {
+        else if (!W.second_run && W.started && !root->isUnderway() && root->state() != Action::State::kIdle) {   // also in the window between finish() and the delivery of its notification
           // reset and run again: must behave like a freshly built tree
           root->reset();
           for (size_t i = 0; i < W.tree.nodes.size(); ++i) if (W.tree.nodes[i] && W.tree.nodes[i]->state() != Action::State::kIdle) { sim::violation("C17/reset-incomplete", sim::fmt("after reset() node n%zu is not idle", i)); break; }
           W.second_run = true; W.run_no = 2; W.cur = &W.run2; W.tree.rec = &W.run2; W.tree.leaf_starts = 0; W.tree.overrun = false;
-          hook_root(W.tree, W.run2);
+          hook_root(W.tree, W.run2, 2);
           W.root_finishes = 0; W.root_blocks = 0; W.finals = 0; W.stopped = false; W.finished = false; W.paused = false;
           root->start();
         }
@@ -365,6 +367,15 @@ void execute(const sim::Plan &plan) {
     if (W.finished || W.stopped) check_nothing_underway(W.tree, W.finished ? "after the root finished (and 20 s more)" : "after stop()");
     if ((W.finished || W.stopped) && dynamic_cast<AssembleAction *>(root) && W.finals != 1)
       sim::violation("C17/final-hook-count", sim::fmt("the final hook ran %ld times in a run that %s", W.finals, W.finished ? "finished" : "was stopped"));
+  }
+  // liveness for every tree whose leaves all complete: unless it was stopped or is still paused, the root has finished by now
+  if (sim::violation_count() == 0 && W.started && !has_never && !has_block && !W.tree.overrun && !W.stopped && !W.finished) {
+    bool paused_now = root->state() == Action::State::kPause && W.paused;
+    if (!paused_now) {
+      std::string st;
+      for (size_t i = 0; i < W.tree.nodes.size(); ++i) if (W.tree.nodes[i]) st += sim::fmt(" n%zu:%s=%s", i, W.tree.nodes[i]->type().c_str(), ToString(W.tree.nodes[i]->state()).c_str());
+      sim::violation("C17/root-never-finished", "every leaf completes, the tree was not stopped and is not paused, yet the root has not finished 20 s after the last operation; states:" + st);
+    }
   }
   // semantic oracle: parallel-free, time-out-free trees with leaves that always complete
   bool semantic = !has_par && !has_tmo && !has_never && !has_block && !W.tree.overrun;
@@ -400,7 +411,7 @@ void execute(const sim::Plan &plan) {
       W.fresh.loop = loop2; W.fresh.spec = spec; W.fresh.nodes.assign(spec.size(), nullptr); W.fresh.rec = &W.runf;
       Action *froot = build(W.fresh, 0);
       Run *saved = W.cur; W.cur = nullptr;
-      hook_root(W.fresh, W.runf);
+      hook_root(W.fresh, W.runf, 0);
       static drv::Timeline tl2; tl2 = drv::Timeline();
       int64_t t2 = sim::now_ns();
       tl2.at(t2, [froot, loop2] { loop2->runInLoop([froot] { froot->start(); }, "c17.fresh"); });
